@@ -368,6 +368,9 @@ func checkCell(c *core.Ctx, s site, cl cell, fn *core.Fn, b tt.Body, x *tt.X, sp
 			return
 		}
 		for _, d := range tt.DefsOf(info, fn.Decl.Body, v) {
+			if _, isDecl := d.Stmt.(*ast.ValueSpec); isDecl && d.Rhs == nil {
+				continue // zero value: false
+			}
 			if d.Rhs != nil {
 				if bv, ok := tt.BoolConst(info, d.Rhs); ok && !bv {
 					continue
